@@ -112,6 +112,18 @@ CHECKS["C16"] = dict(engine="tlc+tars2go+codecdrive",
    text="Clause 1: TLC samples abstract programs (modules, enums, consts, structs with members of every type incl. nested containers, cross-module references, defaults, fixed arrays, interfaces); each is rendered to IDL, run through the tars2go built from the working tree (must terminate, exit 0), compiled in batches, enum constants checked, and the generated codecs judged by Oracle_Schema / Oracle_Dec (C03/C04/C06 oracles) against schemas from lib/idl2schema.py. Clause 2: for every configuration x token of the automaton one run of the binary (viable token + completion, soft token, stray token, end of input) plus random bytes, token soup and cut/mutated programs: it must terminate within 5 s; exit 0 must come with compiling output; TLC's Parse decides what is in the language. Clause 3: tars/protocol/res/*.tars regenerated with the Makefile's flags and compared with the checked-in files after gofmt and banner normalisation.",
    design_ref="5/C16", note="Trusted: IdlGrammar.tla as the definition of the language; go build as the judge of 'compiles'; lenient acceptances whose output compiles are observations. Call transparency of generated proxies is C01's subject (compiled only here).")
 
+MUX_NOTE = "Trusted: hooks in doInvoke/Recv (self-tested), test-only exports of the counters, the harness peer. Wall clock appears only in C09's deadline judgement (dial bound + 500 ms slack + 5 %, overruns must reproduce 3 times)."
+CHECKS["C08"] = dict(engine="tlc+muxdrive",
+   technique="TLA+ specs IdGen.tla / ClientMux.tla (id generator with the real wrap rule on a small id space, pending-reply table, callers, one receiver goroutine per packet, adversarial peer) model-checked by TLC; trace validation (Trace_ClientMux) of real ServantProxy calls against a scripted peer (permuted, duplicated, foreign, zero, late replies) with hooks at register/lookup/deliver/unregister; batch oracle over real draws of genRequestID around the wrap point",
+   category="model_checking",
+   text="TLC checks ReplyMatches, IdNonZero, IdsDistinct, OnePacketOneCaller and the accounting invariants for 2-3 callers, id space 4 and up to 5 peer packets of any kind. Real calls (up to 32 callers quick, 512 thorough, sharing one proxy) run against a peer that answers in order, permuted, twice, with foreign ids, id 0 and late; every hook event and call outcome is validated against the spec (a caller that ends with a reply got the reply to its own request id and payload). The id counter is set just below the wrap point through a test-only export and drawn sequentially and in bursts of up to 6400 concurrent draws: never 0, never a duplicate among live ids.",
+   design_ref="5/C08", note=MUX_NOTE)
+CHECKS["C09"] = dict(engine="tlc+muxdrive",
+   technique="ClientMux.tla with a discrete clock and maximal progress: DeadlineInv, NoResidue, LateReplyHarmless model-checked by TLC (deviation configs must violate: vacuity guards); trace validation of real calls against peers that stay silent, answer late, close after receiving, send garbage, refuse or black-hole connections, with counters read through test-only exports at quiescence",
+   category="model_checking",
+   text="For 5 peer behaviours x timeout settings (50-300 ms, context deadlines shorter and longer than the configured timeout) x 1-32 callers every call must return by its effective deadline + dial bound + slack, and after quiescence the pending-reply table, ServantProxy.queueLen, the manager's invokeNum and the transport's in-flight counter must be back at their previous values; a late reply must change no other call. TLC validates each run's trace (events, recorded times, counters) against ClientMux.",
+   design_ref="5/C09", note=MUX_NOTE + " The transport's connection.invokeNum is counted as an in-flight counter of the statement (two known findings).")
+
 PENDING = {}
 
 def main():
